@@ -126,6 +126,8 @@ def _evaluate_inner(node, env, strict, info):
         b = evaluate(node.comparators[0], env, strict)
         if info is not None and _near_not_at(np.asarray(a, dtype=float) - np.asarray(b, dtype=float), info):
             info["fragile"] = True
+        if info is not None and np.any(np.asarray(a, dtype=float) == np.asarray(b, dtype=float)):
+            info["tie"] = True  # exact equality of the two sides (callers that recompute the operands themselves may want to skip)
         f = {ast.Lt: np.less, ast.LtE: np.less_equal, ast.Gt: np.greater, ast.GtE: np.greater_equal, ast.Eq: np.equal, ast.NotEq: np.not_equal}[type(node.ops[0])]
         return f(a, b) * 1.0
     if isinstance(node, ast.Call):
